@@ -343,6 +343,66 @@ pub fn run(rep: &mut Report, thorough: bool) {
         );
         rep.stage("version-differential-envelope", "5 payloads x {TOS = traffic class: 256 values, TTL = hop limit: 256 values, IPv4 id / IPv6 flow label: 24 values}, the same marking on both IP versions: same canonical answer", total, t0);
     }
+    // the IPv4 header's own length: the same payload behind IPv4 options (IHL 6..15: NOP padding, a
+    // timestamp option, a router-alert option) as datagram and as first data segment: the answer
+    // is the reference answer, byte for byte (nothing sized or offset by the request's IHL)
+    {
+        let t0 = std::time::Instant::now();
+        let names = ["http-get", "ssh-2", "ghost", "stun-classic-change-port", "smb2-negotiate", "rpc-udp-getaddr", "rpc-tcp-getaddr", "dns-a"];
+        let bases: Vec<&Payload> = sel.iter().filter(|p| names.contains(&p.name)).cloned().collect();
+        let c4 = match ref_flow.cip { Ip::V4(a) => a, _ => unreachable!() };
+        let s4 = match ref_flow.sip { Ip::V4(a) => a, _ => unreachable!() };
+        let optsets: Vec<Vec<u8>> = {
+            let mut v: Vec<Vec<u8>> = (1..=10usize).map(|w| vec![1u8; w * 4]).collect();
+            v.push(vec![0x44, 0x0c, 0x05, 0x00, 0, 0, 0, 1, 0, 0, 0, 2]);
+            v.push(vec![0x94, 0x04, 0x00, 0x00]);
+            v.push(vec![0x07, 0x07, 0x04, 0, 0, 0, 0, 0]);
+            v
+        };
+        let no = optsets.len() as u64;
+        let dims = [bases.len() as u64, no, 2];
+        let total: u64 = dims.iter().product();
+        let opts = RunOpts::new("ipv4-options").stateful().chunk(64).no_monitor();
+        let cfgo = cfg.clone();
+        engine::run(
+            &cfg,
+            total,
+            &opts,
+            |i| {
+                let d = unrank(i, &dims);
+                let p = bases[d[0] as usize];
+                let o = &optsets[d[1] as usize];
+                let ihl = 5 + (o.len() / 4) as u8;
+                let tcp = d[2] == 1;
+                let l4 = if tcp { TcpSeg::new(ref_flow.cport, ref_flow.sport, 1000, rc, F_PSH | F_ACK, &p.bytes).bytes(&ref_flow.cip, &ref_flow.sip) } else { udp(&ref_flow.cip, &ref_flow.sip, ref_flow.cport, ref_flow.sport, &p.bytes) };
+                vec![Cmd::Frame(eth(&ref_flow.smac, &ref_flow.cmac, ET_IP4, &ipv4_raw(c4, s4, if tcp { P_TCP } else { P_UDP }, &l4, ihl, None, o, 64, 0x4000, 7)))]
+            },
+            |it: &Item, sk: &mut Sink| {
+                sk.count("frames", 1);
+                let d = unrank(it.idx, &dims);
+                let p = bases[d[0] as usize];
+                let tcp = d[2] == 1;
+                if (tcp && p.via == Via::UdpOnly) || (!tcp && p.via == Via::TcpOnly) {
+                    return;
+                }
+                let got = canon_checked(p.name, &p.bytes, it.outs[1].reply.as_deref(), &ctx_of(&ref_flow, tcp));
+                let want = &refs[&(p.name.to_string(), tcp)];
+                if !same(&got, want) {
+                    sk.violation(Violation {
+                        prop: "C19".into(),
+                        key: format!("ipv4-header-length-dependence:{}:{}", if tcp { "tcp" } else { "udp" }, p.name),
+                        what: format!("payload '{}' behind {} bytes of IPv4 options: canonical reply {} differs from the reference run {}", p.name, optsets[d[1] as usize].len(), got, want),
+                        cfg: cfgo.clone(),
+                        cmds: it.cmds.to_vec(),
+                        idx: it.idx,
+                        stage: "ipv4-options".into(),
+                    });
+                }
+            },
+            &mut rep.sink,
+        );
+        rep.stage("ipv4-options", "8 payloads x 13 IPv4 option areas (4..40 bytes of NOPs, timestamp, router alert, record route) x {datagram, first data segment}: canonical answer equals the reference", total, t0);
+    }
     // soak: 70 000 datagrams into ONE responder process (round robin over the payloads, running
     // source ports, alternating IP version): every canonical answer still equals the reference
     {
